@@ -160,14 +160,78 @@ class Typestate:
         # m_p unmoved between the test and the read
         if any(not a[1] for a in out):
             proofs = window_proofs(self.fn)
+            proofs.update(counted_run_proofs(self.fn))
             for a in out:
                 if not a[1] and id(a[0]) in proofs:
                     a[1] = True
                     a[3] = proofs[id(a[0])]
+        if any(not m[1] for m in self.moves):
+            runs = counted_run_proofs(self.fn)
+            self.moves = [(m[0], True, m[2], runs[id(m[0])]) if (not m[1] and id(m[0]) in runs and
+                                                                   all(id(m2[0]) != id(m[0]) or (not m2[1]) or True for m2 in self.moves)) else m
+                          for m in self.moves]
         return out
 
 
 WINDOW = "this.m_end - this.m_p"
+
+
+def counted_run_proofs(fn):
+    """{id(node): reason} for `m_p[0]` reads and `m_p++` steps inside a counted loop that runs N times, takes one byte per
+    iteration and sits under a test that at least N bytes are left in the window:
+
+        if ((m_end - m_p) >= N) { for (i = 0; i < N; i++) { .. m_p[0] ..; m_p++; } }
+
+    (N not written in between, no other move of the cursor and no decoder call between the test and the end of the loop)."""
+    out = {}
+    env = Env(fn["body"])
+    for t in ir.walk(fn["body"]):
+        if t.get("k") != "If" or WINDOW not in show(t.get("cond")):
+            continue
+        c = cond(t["cond"], env)
+        bounds = [a for a in conjuncts(c) if a[0] == "cmp" and a[1] in ("<=", "<") and WINDOW in str(a[3])]
+        if not bounds:
+            continue
+        N = bounds[0][2]
+        strict = bounds[0][1] == "<"
+        body = [x for x in ir.stmts(t.get("then")) if isinstance(x, dict) and x.get("k") != "Null"]
+        loops = [x for x in body if x.get("k") == "For"]
+        if len(loops) != 1:
+            continue
+        lp = loops[0]
+        # nothing before the loop moves the cursor or calls into the decoder
+        pre = body[:body.index(lp)]
+        if any(is_mp_move(x) or (x.get("k") == "MCall" and (x.get("callee") or {}).get("cls") == DEC and not (x.get("callee") or {}).get("const"))
+               for y in pre for x in ir.walk(y)):
+            continue
+        # the loop runs exactly N times: i = 0; i < N; i++   or   i = N; i > 0; i--
+        init = lp.get("init")
+        v = init["vars"][0] if isinstance(init, dict) and init.get("k") == "Decl" and len(init.get("vars", [])) == 1 else None
+        if v is None or lp.get("cond") is None or lp.get("inc") is None:
+            continue
+        vk = "l:%s#%s" % (v["n"], v["id"])
+        lc = cond(lp["cond"], env)
+        inc = unwrap(lp["inc"])
+        up = const_value(v.get("init")) == 0 and lc == ("cmp", "<", vk, N) and isinstance(inc, dict) and inc.get("k") == "Un" and inc.get("op") in ("post++", "pre++")
+        down = int_key(v.get("init"), env) == N and lc in (("nz", vk), ("cmp", "<", "0", vk)) and isinstance(inc, dict) and inc.get("k") == "Un" and inc.get("op") in ("post--", "pre--")
+        if not (up or down) or path(unwrap_all_casts(inc.get("e"))) != (vk,):
+            continue
+        lb = lp.get("body")
+        moves = [x for x in ir.walk(lb) if is_mp_move(x)]
+        calls = [x for x in ir.walk(lb) if x.get("k") == "MCall" and (x.get("callee") or {}).get("cls") == DEC and not (x.get("callee") or {}).get("const")]
+        writes_n = [x for x in ir.walk(lb) if x.get("k") == "Bin" and (x.get("op") or "").endswith("=") and x.get("op") not in ("==", "!=", "<=", ">=") and
+                    int_key(x.get("lhs"), env) in (N, vk)]
+        nested = [x for x in ir.walk(lb) if x.get("k") in ("While", "For", "Do", "If", "Switch")]
+        if len(moves) != 1 or calls or writes_n or nested or not (moves[0].get("k") == "Un" and moves[0].get("op") in ("post++", "pre++")):
+            continue
+        order = {id(x): i for i, x in enumerate(ir.walk(lb))}
+        why = "one byte per iteration of a loop that runs %s times, under the test that %s bytes are left in the window" % (N, N)
+        for x in ir.walk(lb):
+            d = is_mp_deref(x)
+            if d is not None and d[1] == 0 and order[id(x)] < order[id(moves[0])]:
+                out[id(x)] = why
+        out[id(moves[0])] = why
+    return out
 
 
 def _loop_counts_up_from_zero(loops, key):
